@@ -55,13 +55,18 @@ Definition varint_dec (l : list N) : option (N * list N) :=
   | None => None
   end.
 
+(* the low seven bits and the rest, as the code computes them (`n as u8 | 0x80`, `n >>= 7`);
+   Proofs.lo7_mod / hi7_div: these are n mod 128 and n / 128 *)
+Definition lo7 (n : N) : N := N.land n 127.
+Definition hi7 (n : N) : N := N.shiftr n 7.
+
 (* unsigned_varint::encode::u64 *)
 Fixpoint varint_enc_f (fuel : nat) (n : N) : list N :=
   if n <? 128 then [n]
   else
     match fuel with
-    | O => [n mod 128]
-    | S f => (128 + n mod 128) :: varint_enc_f f (n / 128)
+    | O => [lo7 n]
+    | S f => (128 + lo7 n) :: varint_enc_f f (hi7 n)
     end.
 
 Definition varint_enc (n : N) : list N := varint_enc_f 9 n.
